@@ -48,6 +48,12 @@ def one(sid):
         return sid, meta["detected_by"]
     finally:
         shutil.rmtree(tmp, ignore_errors=True)
+# a validation against a tree on which a check already fails says nothing: every variant would count as caught
+if not SELF:
+    _noisy = evrun.baseline_failures(["C%02d" % i for i in range(1, 21)])
+    if _noisy:
+        print("ABORT: these checks fail on the unchanged /repo with this binary:", _noisy)
+        sys.exit(3)
 with cf.ThreadPoolExecutor(max_workers=4) as ex:
     for sid, det in ex.map(one, ids):
         meta = json.load(open(os.path.join(ROOT, "seeded", sid, "meta.json"))) if det is not None else {}
